@@ -122,6 +122,40 @@ func permOf(m os.FileMode) uint32 { return uint32(m.Perm()) | uint32(specialBits
 // snapshot walks root (no following) and returns nodes with paths relative to root ("" = root).
 func snapshot(root string, runStart time.Time) []FSNode {
 	var out []FSNode
+	// an unprivileged observer cannot traverse directories that the archive made unreadable:
+	// lift their mode for the walk, report the original mode, restore mode and times afterwards
+	type lifted struct {
+		p    string
+		mode os.FileMode
+		mt   time.Time
+	}
+	var lifts []lifted
+	origMode := map[string]os.FileMode{}
+	if os.Geteuid() != 0 {
+		var rec func(p string)
+		rec = func(p string) {
+			fi, err := os.Lstat(p)
+			if err != nil || !fi.IsDir() {
+				return
+			}
+			if fi.Mode().Perm()&0700 != 0700 {
+				lifts = append(lifts, lifted{p, fi.Mode().Perm(), fi.ModTime()})
+				origMode[p] = fi.Mode()
+				os.Chmod(p, fi.Mode().Perm()|0700)
+			}
+			ents, _ := os.ReadDir(p)
+			for _, e := range ents {
+				rec(filepath.Join(p, e.Name()))
+			}
+		}
+		rec(root)
+		defer func() {
+			for i := len(lifts) - 1; i >= 0; i-- {
+				os.Chmod(lifts[i].p, lifts[i].mode)
+				os.Chtimes(lifts[i].p, lifts[i].mt, lifts[i].mt)
+			}
+		}()
+	}
 	filepath.Walk(root, func(p string, info os.FileInfo, err error) error {
 		if err != nil {
 			return nil
@@ -132,6 +166,14 @@ func snapshot(root string, runStart time.Time) []FSNode {
 		}
 		n := FSNode{Path: rel, Perm: permOf(info.Mode())}
 		mt := info.ModTime()
+		if om, ok := origMode[p]; ok {
+			n.Perm = permOf(om)
+			for _, l := range lifts {
+				if l.p == p {
+					mt = l.mt
+				}
+			}
+		}
 		if mt.After(runStart.Add(-2 * time.Second)) {
 			n.Mtime = -1
 		} else {
@@ -151,7 +193,16 @@ func snapshot(root string, runStart time.Time) []FSNode {
 			n.Kind = "d"
 		case info.Mode().IsRegular():
 			n.Kind = "f"
-			b, _ := os.ReadFile(p)
+			b, rerr := os.ReadFile(p)
+			if rerr != nil && os.IsPermission(rerr) {
+				// an unprivileged observer cannot read a mode-0000 file: lift the mode for the read
+				// (times are restored; only files created inside dst have such modes)
+				mt := info.ModTime()
+				os.Chmod(p, 0600)
+				b, _ = os.ReadFile(p)
+				os.Chmod(p, info.Mode().Perm())
+				os.Chtimes(p, mt, mt)
+			}
 			n.Data = string(b)
 		default:
 			n.Kind = "s"
@@ -681,6 +732,9 @@ func unpackCorpus(arena string) []*UCase {
 		mk(L("a/l", ".."), L("n/../a/l/k", "../x")),           // F28 (fixed)
 		mk(L("s", "."), L("l", "s/.."), F("n/../l/evil.txt", "pwn")), // F28 (fixed) through an F3 chain: refused at the Lstat walk
 		mk(L("s", "."), L("l", "s/.."), D("n/../l/evildir/", 0700)),
+		mk(L("a", "."), F("a/../b", "through-dot-link")),       // the cleaned name is what is extracted: stays in dst
+		mk(L("d/up", ".."), F("d/up/../dropped.txt", "x"), D("d/up/../newdir/", 0700)),
+		mk(L("a", "."), L("a/../lnk", "b"), D("a/../../dst-evil/", 0777)),
 		mk(L("l", arena+"/p/q/dst/a")),                            // F12
 		mk(D("d/", 0555), F("d/a", "x"), F("d/a", "y")),
 		mk(F("a", "1"), F("a", "2")),
@@ -714,7 +768,7 @@ func init() {
 			_ = i
 			jobs = append(jobs, job{c: c})
 		}
-		for len(jobs) < cfg.N+16 {
+		for len(jobs) < cfg.N+19 {
 			jobs = append(jobs, job{})
 		}
 		for i := range jobs {
@@ -783,7 +837,12 @@ func runUnpackCase(cfg *Config, rep *Report, idx int, c *UCase, arena string, re
 	out := runUnpack(bytes.NewReader(data), dst, c.Allow)
 	after := snapshot(arena, start)
 
-	line := fmt.Sprintf("unpack 1 %s %s %s %s %s %s", X("/"), X(dst), encStrList(c.Allow), c.Fault, encArena(arena, before), encEntries(decoded))
+	priv := "1"
+	if os.Geteuid() != 0 {
+		priv = "0"
+		rep.Count("unprivileged")
+	}
+	line := fmt.Sprintf("unpack %s %s %s %s %s %s %s", priv, X("/"), X(dst), encStrList(c.Allow), c.Fault, encArena(arena, before), encEntries(decoded))
 	reqs[idx] = line
 	impl[idx] = out.class + " " + encArena(arena, after)
 	human[idx] = c
